@@ -107,6 +107,12 @@ func (g *cgen) conv(t *Type, depth int) Expr {
 	if t.K == TScalar && !t.S.IsAbstract() && t.S != Bool && g.chance(35, "cabs") {
 		switch t.S {
 		case I32, U32:
+			if t.S == U32 && g.is("const.u32.named-abstract-operand") {
+				// open finding C06-19: no named abstract-int constants inside an operand of u32 arithmetic
+				save := g.noNamed
+				g.noNamed = true
+				defer func() { g.noNamed = save }()
+			}
 			return g.expr(TAbsI, depth)
 		case F32:
 			if g.chance(50, "cabsf") || g.is("const.absint-div.float-context") {
@@ -196,6 +202,17 @@ func (g *cgen) expr(t *Type, depth int) Expr {
 			l, rr := g.expr(t, depth-1), g.conv(t, depth-1)
 			if g.chance(50, "cswap") && op != "/" && op != "%" && op != "-" {
 				l, rr = rr, l
+			}
+			if k == U32 && g.is("const.u32.named-abstract-operand") {
+				// open finding C06-19: a NAMED abstract-int constant next to a u32 operand makes the
+				// function-scope folder treat the u32 arithmetic as signed
+				fix := func(e Expr) Expr {
+					if v, ok := e.(*VarRef); ok && v.V.T.S == AbsInt {
+						return g.lit(AbsInt)
+					}
+					return e
+				}
+				l, rr = fix(l), fix(rr)
 			}
 			return &Binary{Op: op, L: l, R: rr, T: t}
 		case r < 60 && !(k == AbsInt && g.is("const.absint.shift")):
